@@ -57,7 +57,8 @@ def oracle(src, toks):
                 if seg != b"    ":
                     yield "indent-stamped", f"Indent at {sl}:{sc}-{ec} covers {seg!r}"
             continue
-        after_ml = ml_line is not None and sl == ml_line
+        # known class D27: a token that really sits on the last line of a multi-line string, with drifted columns
+        after_ml = ml_line is not None and sl == ml_line and 1 <= sl <= len(lines) and lx in lines[sl - 1]
         # span covers exactly the token's characters
         if not (1 <= sl <= len(lines)):
             yield "line-out-of-range", f"{k} at line {sl} of {len(lines)}"
@@ -115,7 +116,7 @@ def mutate(rng, text):
 
 STRINGS = ['"a"', '""', '"a{x}"', '"{x + 1} and {y}"', '"{"', '"}"', '"a\\"b"', '"\\\\"', '"{{x}}"', '"{}"',
            '"a\nb"', '"a\n"', '"""doc"""', '"""two\nlines"""', '"{"q"}"', '"{f("s")}"', '"unterminated',
-           '"{a} {b} {c}"', '"}{"', '"é"', '"{x!}"', '"\\{x}"']
+           '"{a} {b} {c}"', '"}{"', '"é"', '"{x!}"', '"\\{x}"', '"a\\\nb"', '"""doc \\\nmore"""', '"x\\\n\\\ny"']
 
 
 def cases(ck, quick):
